@@ -73,7 +73,7 @@ func c06Pool(tier string) []string {
 	if tier == "thorough" {
 		return []string{"default", "tiny", "literals", "seedA", "seedB", "gogarble", "ctrlflow", "lit-seedA"}
 	}
-	return []string{"default", "tiny", "literals", "seedA", "ctrlflow", "gogarble"}
+	return []string{"default", "tiny", "literals", "seedA", "ctrlflow", "gogarble", "lit-seedA"}
 }
 
 func c06TmplCfgs(tier string) []world.Config {
@@ -111,6 +111,7 @@ var c06Edits = []Edit{
 	{Pkg: "top", Kind: "newfile", N: 5},
 	{Pkg: ".", Kind: "body", N: 6},
 	{Pkg: "leaf", Kind: "blank", N: 7},
+	{Pkg: "conf", Kind: "blank", N: 8}, // call-free package: its obfuscated build does not change, its plain one does
 }
 
 func (c c06) Generate(e *Env) ([]*Case, error) {
@@ -156,6 +157,12 @@ func (c c06) Generate(e *Env) ([]*Case, error) {
 	add(b("default"), ed(1), b("default"), again)            // comment only
 	add(b("default"), ed(0), b("default"), c06Op{Undo: true}, b("default")) // edit, build, revert, build
 	add(b("literals"), ed(3), b("literals"), ed(4), b("default"))
+	// A dependency whose plain build changes (line numbers) while its obfuscated
+	// build stays byte-identical: dependants keep their compiled objects although
+	// their garble action IDs change; with a fixed seed nothing may depend on those.
+	add(b("lit-seedA"), ed(7), b("lit-seedA"), again)
+	add(b("seedA"), ed(7), b("seedA"), again)
+	add(b("tiny"), ed(7), b("tiny"))
 	// Seeded histories.
 	n := 10
 	if thorough {
